@@ -334,6 +334,11 @@ outer:
 
 	// No better solution than allocate at the end of the table.
 	base = a.size - min
+	for a.usedBase.Get(a.delta + base) {
+		// Bases must stay unique: "check" stores positions only.
+		base++
+	}
+	a.taken.Grow(base + max + 1)
 	return
 }
 
